@@ -1,9 +1,9 @@
-\* liveness under fairness: 2 connections x 1 caller x 2 hooks, netpoll
+\* liveness under fairness: 2 connections x 1 caller x 1 hook, netpoll
 CONSTANTS
   Conns = {c1, c2}
   Callers = {k1}
-  Hooks = {h1, h2}
-  BeyondHooks = {h2}
+  Hooks = {h1}
+  BeyondHooks = {}
   MaxReq = 1
   Transport = "netpoll"
   ServerRun = TRUE
